@@ -152,6 +152,18 @@ def cases(ctx):
                             "src": f"*={a:#08x}\nnop\n@={b:#08x}\nzz_r:\nnop\nnop\n*={c:#08x}\nzz_tgt:\ndex\nnop\n{mn} zz_tgt\nnop\n",
                             "spec": {"t": "branch", "high": rom == "high", "p": c + 2, "t_addr": c, "op": op, "skip": 2,
                                      "reject": False}})
+    # code relocated (@=) or positioned (*=) to the very first byte of the ROM image (file offset 0) after code elsewhere
+    for rom in ("low", "high"):
+        bank = 0x01 if rom == "low" else 0x41
+        zero = 0x008000 if rom == "low" else 0x400000
+        for mn, op in br:
+            for mv in ("@=", "*="):
+                out.append({"kind": f"branch:to-offset-zero:{mv}", "rom": rom,
+                            "src": f"*={(bank << 16) | 0x8100:#08x}\nzz_first:\nnop\n{mv}{zero:#08x}\nzz_t:\ndex\n{mn} zz_t\nnop\n",
+                            "spec": {"t": "branch", "high": rom == "high", "p": zero + 1, "t_addr": zero, "op": op,
+                                     "skip": 2 if mv == "@=" else 1, "reject": False}})
+            out.append({"kind": "branch:to-offset-zero:far", "rom": rom, "spec": {"t": "reject"},
+                        "src": f"*={(bank << 16) | 0x8100:#08x}\nzz_first:\nnop\n@={zero:#08x}\n{mn} zz_first\n"})
     # under a bus the program declares itself (.map): RAM and distances are those of THAT bus
     maps = (".map identifier=1 bank_range=0x00,0x5f addr_range=0x8000,0xffff mask=0x8000\n"
             ".map identifier=2 bank_range=0x60,0x6f addr_range=0,0xffff mask=0x10000 writable=1\n"
